@@ -15,8 +15,9 @@
     (E) the cosmos-sdk handlers reached through the router (Model/AdapterNative.v) —
         [C17_native_only_signer], [C17_native_conserves].
     Only statements here; proofs are in Proofs/Adapter*.v. *)
-From Teleport Require Import Base.Bytes Base.Outcome Model.Adapter Model.AdapterEvm Model.AdapterNative
-  Proofs.Adapter Proofs.AdapterAbi Proofs.AdapterFields Proofs.AdapterNative Proofs.AdapterEvm.
+From Teleport Require Import Base.Bytes Base.Outcome Model.Adapter Model.AdapterEvm Model.AdapterNative Model.AdapterWiring
+  Model.AdapterCheck Proofs.Adapter Proofs.AdapterAbi Proofs.AdapterFields Proofs.AdapterNative Proofs.AdapterCheck
+  Proofs.AdapterEvm Proofs.AdapterWiring Proofs.AdapterCheckAttr.
 Local Open Scope N_scope.
 
 (** ** (A) the hooks *)
@@ -71,6 +72,15 @@ Theorem C17_multi_hook_order : forall (S : Type) (exec : msg -> S -> outcome S) 
   run_items S exec (filter_map (classify HStaking) logs ++ filter_map (classify HGov) logs) s.
 Proof. intros; apply multi_hook_char. Qed.
 Print Assumptions C17_multi_hook_order.
+
+(** The same for ANY list of registered adapters (ethermint's MultiEvmHooks is a loop over the list): the
+    items of the first registered hook over the whole receipt, then those of the next, ... — so "once per
+    emitted event" holds exactly when each adapter is registered once (Props/C17_wiring.v checks the list
+    app.go registers; Refuted/C17_wiring_refuted.v: registered twice => executed twice). *)
+Theorem C17_multi_hook_any_registration : forall (S : Type) (exec : msg -> S -> outcome S) hs logs s,
+  multi_hook_list exec hs logs s = run_items S exec (flat_map (fun h => filter_map (classify h) logs) hs) s.
+Proof. intros; apply multi_hook_list_char. Qed.
+Print Assumptions C17_multi_hook_any_registration.
 
 (** fields_verbatim: whenever a handler submits a message, each field is the event's field,
     unchanged: signer = first event field; validator strings byte for byte; amount for every value
@@ -131,7 +141,12 @@ Theorem C17_canonical_log_elsewhere_ignored : forall e h self,
 Proof. exact classify_canonical_foreign. Qed.
 Print Assumptions C17_canonical_log_elsewhere_ignored.
 
-(** ** (B) supply: with the overridden BurnCoins, over ALL sequences of native messages, burns
+(** ** (B) supply.  [C17_supply_unchanged]: every burn goes through the override.  [C17_supply_unchanged_wired]:
+    burns by the staking / gov keeper go through whichever bank keeper the module was built with; the
+    hypothesis (both built with the override) is discharged for app.go in Props/C17_wiring.v and shown
+    necessary in Refuted/C17_wiring_refuted.v.
+
+    With the overridden BurnCoins, over ALL sequences of native messages, burns
     (slashing, deposit burning) and plain sends — failing actions being discarded — the total
     supply and the sum of all balances never change. *)
 Theorem C17_supply_unchanged : forall resolve bonded notbonded distr fee max_entries acts s,
@@ -139,6 +154,14 @@ Theorem C17_supply_unchanged : forall resolve bonded notbonded distr fee max_ent
   total_bal (run_actions resolve bonded notbonded distr fee max_entries acts s) = total_bal s.
 Proof. intros; apply supply_unchanged_all. Qed.
 Print Assumptions C17_supply_unchanged.
+
+Theorem C17_supply_unchanged_wired : forall resolve bonded notbonded distr fee max_entries k_staking k_gov,
+  k_staking = Base.AdapterWiringTypes.BKOverride -> k_gov = Base.AdapterWiringTypes.BKOverride ->
+  forall acts s,
+  n_supply (run_wactions resolve bonded notbonded distr fee max_entries k_staking k_gov acts s) = n_supply s /\
+  total_bal (run_wactions resolve bonded notbonded distr fee max_entries k_staking k_gov acts s) = total_bal s.
+Proof. intros; apply wired_supply_unchanged; assumption. Qed.
+Print Assumptions C17_supply_unchanged_wired.
 
 (** the burned coins arrive at the fee collector *)
 Theorem C17_burn_goes_to_fee_collector : forall fee module a s s',
@@ -189,7 +212,7 @@ Print Assumptions C17_native_conserves.
 
 (** ** (C) end to end in the MODELLED EVM: for every well-formed user transaction (any call tree
     over the system contracts, forwarding proxies with CALL / DELEGATECALL / STATICCALL / CALLCODE,
-    reverting or not, and look-alike emitters), the native items executed by the hooks are exactly
+    reverting or not, batch contracts performing any number of calls from one frame, and look-alike emitters), the native items executed by the hooks are exactly
     the surviving invocations of system-contract code running AT the system address — staking
     ones first — each built from that frame's msg.sender and call arguments. *)
 Theorem C17_attribution_end_to_end : forall (S : Type) (exec : msg -> S -> outcome S) t s,
@@ -200,7 +223,24 @@ Theorem C17_attribution_end_to_end : forall (S : Type) (exec : msg -> S -> outco
 Proof. intros S exec t s W Z. rewrite multi_hook_char, !run_tx_spec by assumption. reflexivity. Qed.
 Print Assumptions C17_attribution_end_to_end.
 
-Theorem C17_signer_is_msg_sender : forall iv m, item_of_inv iv = Ok m -> msg_signer m = snd (fst iv).
+(** A whole user transaction in the modelled stack (EVM call tree -> receipt -> hooks -> ethermint's
+    commit-or-discard): if it succeeds, the state is the EVM's own changes followed by exactly one native
+    message per surviving invocation of a system contract at its own address (staking ones first), each the
+    message of that invocation (signer = its msg.sender, its arguments verbatim: C17_signer_is_msg_sender,
+    C17_fields_verbatim); otherwise the state is the one before the transaction, EVM changes included. *)
+Theorem C17_user_tx_end_to_end : forall (S : Type) (exec : msg -> S -> outcome S) (evm : S -> S) t s r s',
+  wf_tx t = true -> tx_sizes_ok t ->
+  deliver exec evm (fr_logs (run_tx t)) s = (r, s') ->
+  (r = Ok tt ->
+     exists ms,
+       Forall2 (fun iv m => item_of_inv iv = Ok m)
+               (filter (inv_for HStaking) (fr_inv (run_tx t)) ++ filter (inv_for HGov) (fr_inv (run_tx t))) ms /\
+       run_msgs S exec ms (evm s) = Ok s') /\
+  (r <> Ok tt -> s' = s).
+Proof. intros; eapply user_tx_end_to_end; eauto. Qed.
+Print Assumptions C17_user_tx_end_to_end.
+
+Theorem C17_signer_is_msg_sender : forall iv m, item_of_inv iv = Ok m -> Proofs.AdapterEvm.msg_signer m = snd (fst iv).
 Proof. exact item_signer. Qed.
 Print Assumptions C17_signer_is_msg_sender.
 
@@ -211,6 +251,38 @@ Theorem C17_sys_frame_only_by_call : forall k target x h,
   (k = KCall \/ k = KStaticCall) /\ target = sys_addr h /\ fx_sender (child_ctx k target x) = fx_self x.
 Proof. exact child_at_sys_only_by_call. Qed.
 Print Assumptions C17_sys_frame_only_by_call.
+
+(** ** monitor soundness: the executable monitors the check evaluates on the implementation's traces
+    (Model/AdapterCheck.v) accept the model's own behaviour — for EVERY hook selection, receipt and injected
+    router failure the pure-hook monitor (11 message without matching log, 12 not one message per matching
+    log, 13 signer is not the event's first field) and the comparison report nothing on the model's output *)
+Theorem C17_hook_monitor_sound : forall w logs f,
+  mon_hcase (model_hcase w logs f) = [] /\ cmp_hcase (model_hcase w logs f) = [].
+Proof. exact hook_monitor_sound. Qed.
+Print Assumptions C17_hook_monitor_sound.
+
+(** ... and of the application monitor the supply part (44), the atomicity part (41) and (next theorem) the
+    attribution part (42), for every transaction step of the model from a state whose balances add up to
+    the supply.  PARTIAL: the exact-effect part (43) is not proved sound against [exec_native]; what is
+    missing is a proof that [exact_ok]'s table update agrees with [exec_native] on every message sequence
+    (the reward payments make the balance bound an interval) — it is validated by every run instead. *)
+Theorem C17_app_monitor_sound_partial : forall e st,
+  total_bal (o_n (a_pre st)) = n_supply (o_n (a_pre st)) ->
+  supply_ok (o_n (a_pre (model_step e st))) (o_n (a_post (model_step e st))) = true /\
+  (a_class (model_step e st) <> 0%nat -> unchanged (a_pre (model_step e st)) (a_post (model_step e st)) = true).
+Proof. exact app_monitor_sound_supply_atomicity. Qed.
+Print Assumptions C17_app_monitor_sound_partial.
+
+(** attribution monitor (42): on every successful transaction step of the model (any well-formed call tree),
+    delegations, unbondings, redelegations, votes and balances of every account that is NOT the msg.sender of a
+    surviving system-contract invocation are untouched (module pools aside) *)
+Theorem C17_app_monitor_sound_attribution : forall e st,
+  wf_tx (a_tx st) = true -> tx_sizes_ok (a_tx st) ->
+  fst (fst (model_tx e st)) = 0%nat ->
+  attribution_ok e (map (fun iv : invocation => snd (fst iv)) (fr_inv (run_tx (a_tx st))))
+                 (o_n (a_pre st)) (o_n (snd (fst (model_tx e st)))) = true.
+Proof. exact app_monitor_sound_attribution. Qed.
+Print Assumptions C17_app_monitor_sound_attribution.
 
 (** ** non-vacuity *)
 Definition ex_val : bytes := B "teleportvaloper1xyz".
@@ -244,4 +316,21 @@ Example C17_nonvacuous_frames :
   fr_ok (run_tx (call KDelegateCall)) = true /\
   multi_hook ex_rec (fr_logs (run_tx (call KCall))) [] = (Ok tt, [MDelegate ex_proxy ex_val 5]) /\
   multi_hook ex_rec (fr_logs (run_tx (call KDelegateCall))) [] = (Ok tt, []).
+Proof. cbv zeta. repeat split; vm_compute; reflexivity. Qed.
+
+(** one contract calling both system contracts in one transaction (batch): both act for THE BATCH CONTRACT,
+    the staking action first although the vote was emitted first; a batch that ignores a reverting inner
+    call keeps the other call only *)
+Definition ex_batch : bytes := repeat x33 20.
+Example C17_nonvacuous_batch :
+  let t ign inner2 := {| tx_sender := ex_eoa; tx_to := ex_batch;
+                  tx_code := CSeq KCall false gov_addr (CSys HGov (FVote 1 3))
+                             (CSeq KCall ign staking_addr inner2 CStop) |} in
+  let good := CSys HStaking (FDelegate ex_val 5) in
+  let bad := CSys HStaking (FVote 1 3) in                       (* unknown selector: the inner call reverts *)
+  wf_tx (t false good) = true /\ wf_tx (t true bad) = true /\
+  fr_inv (run_tx (t false good)) = [(HGov, ex_batch, FVote 1 3); (HStaking, ex_batch, FDelegate ex_val 5)] /\
+  multi_hook ex_rec (fr_logs (run_tx (t false good))) [] = (Ok tt, [MDelegate ex_batch ex_val 5; MVote ex_batch 1 3]) /\
+  fr_ok (run_tx (t false bad)) = false /\
+  multi_hook ex_rec (fr_logs (run_tx (t true bad))) [] = (Ok tt, [MVote ex_batch 1 3]).
 Proof. cbv zeta. repeat split; vm_compute; reflexivity. Qed.
